@@ -66,10 +66,13 @@ def cases(seed, tier):
         c = {'profile': p, 'skip': skip, 'adm': adm, 'clock': clock, 'knobs': knobs, 'net': {'rtt_us': rng.choice([40, 200, 1000, 8000, 60000, 200000])},
              'opts': rng.choice([['-n'], ['-j'], ['-n', '-v'], ['-n', '-P', 'Hardened OpenSSH Server v9.9 (version 1)']]), 'timeout': rng.choice([1, 2, 5]), 'pseed': rng.getrandbits(32)}
         if rng.random() < 0.3:
-            kind = rng.choice(['truncate_stall', 'truncate_close', 'garbage', 'truncate_reset', 'wrongtype', 'badblob'])
+            kind = rng.choice(['truncate_stall', 'truncate_close', 'garbage', 'truncate_reset', 'wrongtype', 'badblob', 'late'])
             f = {'conn': rng.randrange(1, 10), 'msg': rng.choice(['banner', 'kexinit', 'reply', 'reply', 'group']), 'kind': kind, 'off': rng.choice([0, 7, 50]), 'n': 30}
             if kind == 'wrongtype':
                 f = {'conn': f['conn'], 'msg': 'reply', 'kind': 'corrupt', 'off': 5, 'hex': rng.choice(['14', '15', '32', '63'])}
+            elif kind == 'late':
+                # an intact message that arrives after the tool's timeout, on a connection the peer keeps open
+                f = {'conn': f['conn'], 'msg': f['msg'], 'kind': 'delay', 'us': int(c['timeout'] * 1_000_000 * rng.choice([1.1, 1.6, 2.5]))}
             elif kind == 'badblob':
                 f = {'conn': f['conn'], 'msg': 'reply', 'kind': 'corrupt', 'off': 10, 'hex': 'ffffff'}
             c['faults'] = [f]
